@@ -47,10 +47,20 @@ func LoadFileLines(f string) ([]string, error) {
 	scanner := bufio.NewScanner(file)
 	scanner.Split(bufio.ScanLines)
 
+	// the default token limit (64 KiB) would end the scan, silently, at the first longer line; no
+	// line is longer than the file
+	if info, statErr := file.Stat(); statErr == nil && info.Size() >= bufio.MaxScanTokenSize {
+		scanner.Buffer(nil, int(info.Size())+1)
+	}
+
 	var lines []string
 
 	for scanner.Scan() {
 		lines = append(lines, scanner.Text())
+	}
+
+	if err = scanner.Err(); err != nil {
+		return []string{}, err
 	}
 
 	return lines, nil
